@@ -758,3 +758,24 @@ def canon(fn, i, swap=None):
 def body_statements(fn):
     b = fn.N(fn.body)
     return list(b['ch']) if b['k'] == 'CompoundStmt' else [fn.body]
+
+
+def narrowed_char_eof_tests(f):
+    """comparisons with EOF (-1) whose other operand is a plain `char` widened implicitly: after `char t = c;` the test
+    `t != EOF` is false for byte 0xFF - the character must be tested as the int it arrived as (or through to_int_type)"""
+    out = []
+    for i in f.all_nodes():
+        n = f.N(i)
+        if n['k'] != 'BinaryOperator' or n.get('op') not in ('==', '!='):
+            continue
+        for x, y in ((n['ch'][0], n['ch'][1]), (n['ch'][1], n['ch'][0])):
+            if f.const_value(y) != -1:
+                continue
+            m = f.N(x)
+            while m['k'] == 'ParenExpr' and m.get('ch'):
+                m = f.N(m['ch'][0])
+            if m['k'] == 'ImplicitCastExpr' and m.get('cast') == 'IntegralCast' and m.get('ch'):
+                st = (f.types[f.N(m['ch'][0])['t']] if f.N(m['ch'][0]).get('t') is not None else '') or ''
+                if st.replace('const ', '').strip() in ('char', 'signed char'):
+                    out.append(i)
+    return out
